@@ -357,14 +357,32 @@ def gen_index_workbook(rng: random.Random):
         tmpl_rows.append({"row_id": "", "type": "hard_exit", "from": "t4"})
     if rng.random() < 0.5:
         tmpl_rows.append({"row_id": "t5", "type": "add_to_group", "from": "t3", "message_text": "G {{word}}"})
-    main_rows = [
-        {"row_id": "m1", "type": "send_message", "from": "start", "message_text": "main"},
-        {"row_id": "m2", "type": "insert_as_block", "from": "m1", "message_text": "tmpl", "data_sheet": "data",
-         "data_row_id": rng.choice(ids), "template_arguments": rng.choice(["E1", "", "E2"])},
-        {"row_id": "m3", "type": "send_message", "from": "m2", "message_text": "after block"},
-    ]
+    main_rows = [{"row_id": "m1", "type": "send_message", "from": "start", "message_text": "main"}]
+    # the template is inserted one to three times — sometimes with exactly the same data row and
+    # arguments (every insertion must get identifiers of its own)
+    prev = "m1"
+    picks = []
+    for k in range(rng.choice([1, 2, 2, 3])):
+        if picks and rng.random() < 0.5:
+            pick, arg = rng.choice(picks)
+        else:
+            pick, arg = rng.choice(ids), rng.choice(["E1", "", "E2"])
+        picks.append((pick, arg))
+        bid = f"ins{k}"
+        main_rows.append({"row_id": bid, "type": "insert_as_block", "from": prev, "message_text": "tmpl", "data_sheet": "data",
+                          "data_row_id": pick, "template_arguments": arg})
+        aft = f"aft{k}"
+        main_rows.append({"row_id": aft, "type": "send_message", "from": bid, "message_text": f"after block {k}"})
+        prev = aft
     if rng.random() < 0.5:
-        main_rows.append({"row_id": "m4", "type": "start_new_flow", "from": "m3", "message_text": "tmpl - " + rng.choice(ids)})
+        main_rows.append({"row_id": "m4", "type": "start_new_flow", "from": prev, "message_text": "tmpl - " + rng.choice(ids)})
+    second_rows = None
+    if rng.random() < 0.5:
+        pick, arg = rng.choice(picks)
+        second_rows = [
+            {"row_id": "s1", "type": "send_message", "from": "start", "message_text": "second flow"},
+            {"row_id": "s2", "type": "insert_as_block", "from": "s1", "message_text": "tmpl", "data_sheet": "data", "data_row_id": pick, "template_arguments": arg},
+        ]
     index_rows = [
         {"type": "data_sheet", "sheet_name": "data"},
         {"type": "template_definition", "sheet_name": "tmpl", "template_arguments": "extra;;dflt|"},
@@ -372,6 +390,8 @@ def gen_index_workbook(rng: random.Random):
          "template_arguments": rng.choice(["", "X"])},
         {"type": "create_flow", "sheet_name": "main"},
     ]
+    if second_rows is not None:
+        index_rows.append({"type": "create_flow", "sheet_name": "second"})
     rng.shuffle(index_rows)
     # data sheet must be registered before flows are parsed, which happens after the whole index: any order works
     ih = ["type", "sheet_name", "data_sheet", "data_row_id", "new_name", "template_arguments", "data_model", "status"]
@@ -381,4 +401,6 @@ def gen_index_workbook(rng: random.Random):
         "tmpl": _csv(H, tmpl_rows),
         "main": _csv(H, main_rows),
     }
+    if second_rows is not None:
+        sheets["second"] = _csv(H, second_rows)
     return sheets, None
